@@ -304,10 +304,10 @@ func auditFamilies(r *kit.Run, add func(vexplore.Scenario), gens *[]vexplore.Gen
 		// result then depended on the map order as soon as a parent had more than 12
 		// updates. C12_NO_DUPLICATE_VERSIONS=1 leaves the variant out.
 		nvar := len(stabVariants)
-		if os.Getenv("C12_NO_DUPLICATE_VERSIONS") != "" {
-			nvar--
-		}
 		for variant := 1; variant < nvar; variant++ {
+			if variant == 9 && os.Getenv("C12_NO_DUPLICATE_VERSIONS") != "" {
+				continue
+			}
 			for pat := 0; pat < 1<<uint(sh.later[0]); pat++ {
 				for _, other := range []int{0, 0b101010, 0b111111} {
 					same := make([]int, len(sh.later))
@@ -322,8 +322,10 @@ func auditFamilies(r *kit.Run, add func(vexplore.Scenario), gens *[]vexplore.Gen
 	}
 	count("stability-values")
 	long := []int{0, 1<<20 - 1, 0x55555, 0xaaaaa, 0x33333, 0xccccc, 0x1c71c7, 0x003ff, 0xffc00, 0x00400, 0x6db6d, 0x12345}
-	for _, sh := range []shape{{[]int{0, 1, 0}, []int{20, 12}}, {[]int{0, 1, 0, 2}, []int{13, 13, 12}}, {[]int{0, 1, 2, 0, 1}, []int{10, 10, 10}}, {[]int{1, 0, 0, 2, 0}, []int{16, 4, 5}}} {
-		for _, variant := range []int{0, 3, 7} {
+	// (the last three shapes: update lists that cover one child only - one index, or one child at two / three positions)
+	for _, sh := range []shape{{[]int{0, 1, 0}, []int{20, 12}}, {[]int{0, 1, 0, 2}, []int{13, 13, 12}}, {[]int{0, 1, 2, 0, 1}, []int{10, 10, 10}}, {[]int{1, 0, 0, 2, 0}, []int{16, 4, 5}},
+		{[]int{0}, []int{16}}, {[]int{0, 0}, []int{14}}, {[]int{0, 1, 0}, []int{13, 0}}} {
+		for _, variant := range []int{0, 3, 7, 10} {
 			for _, pat := range long {
 				for oi, other := range []int{0, 0xaaaaa, 1<<20 - 1} {
 					if quick && variant != 0 && oi != 1 {
